@@ -312,10 +312,9 @@ func StepBlock(n *node.Pegnetd, height uint32) (err error) {
 		return fmt.Errorf("failed to sync height: %v", err)
 	}
 
-	d.Sync.Synced++
-	err = d.Pegnet.InsertSynced(tx, d.Sync)
+	next := &pegnet.BlockSync{Synced: d.Sync.Synced + 1}
+	err = d.Pegnet.InsertSynced(tx, next)
 	if err != nil {
-		d.Sync.Synced--
 		if rerr := tx.Rollback(); rerr != nil {
 			return fmt.Errorf("unable to update synced metadata: %v; unable to roll back transaction: %v", err, rerr)
 		}
@@ -324,11 +323,11 @@ func StepBlock(n *node.Pegnetd, height uint32) (err error) {
 
 	err = tx.Commit()
 	if err != nil {
-		d.Sync.Synced--
 		// The original calls tx.Rollback() here too (which yields
 		// sql.ErrTxDone after a failed Commit, and then log.Fatal).
 		rerr := tx.Rollback()
 		return fmt.Errorf("unable to commit transaction: %v (rollback: %v)", err, rerr)
 	}
+	atomic.StoreUint32(&d.Sync.Synced, next.Synced)
 	return nil
 }
